@@ -66,17 +66,13 @@ def gen_line(rng, ctx):
     return " ".join(parts + out), expected, primary
 
 
-def body(ctx: C.Ctx, proof: C.ProofStatus) -> C.Result:
+def one_dir(ctx, res, rng, d):
     from freezegun import freeze_time
 
-    res = C.Result()
-    rng = ctx.rng
     zdir = ctx.tmp / "z"
     cfg = Z.write_config(ctx.tmp / "cfg.yml")
     reqs, metas = [], []
-    for d in range(ctx.scale(8, 200)):
-        if zdir.exists():
-            shutil.rmtree(zdir)
+    for _once in (0,):
         zdir.mkdir(parents=True)
         files = G.gen_dir(rng, npages=(2, 4), with_zid=True, sections=False)
         # notes sharing ID / RID values: g1 twice on ONE page, g2 on two pages, G3 once; r1 once, r2 twice
@@ -184,6 +180,14 @@ def body(ctx: C.Ctx, proof: C.ProofStatus) -> C.Result:
                 metas.append((case, rc, out))
                 if len(res.samples) < 3 and len(want) >= 2:
                     res.sample({"line": line, "answer": out})
+    return list(zip(reqs, metas))
+
+
+def body(ctx: C.Ctx, proof: C.ProofStatus) -> C.Result:
+    res, rets = C.parallel_jobs(ctx, ctx.scale(16, 240), one_dir)
+    pairs = [x for r in rets if r for x in r]
+    reqs = [q for q, _ in pairs]
+    metas = [m for _, m in pairs]
     if proof.driver_ok and reqs:
         for (case, rc, out), m in zip(metas, C.model_batch(reqs)):
             res.evaluations += 1
